@@ -136,8 +136,18 @@ impl<R: BufRead + Seek + Position> ReadValue for ValueReader<R> {
         &mut self,
         len: usize,
     ) -> Result<<Self::Types as FieldTypes>::Bytes, ProtobufError> {
-        let mut buf = vec![0; len];
-        self.inner.read_exact(&mut buf)?;
+        // `len` comes from untrusted input and may be much larger than the
+        // remaining input, so don't allocate `len` bytes up front.
+        let mut buf = Vec::new();
+        while buf.len() < len {
+            let chunk = self.inner.fill_buf()?;
+            if chunk.is_empty() {
+                return Err(std::io::Error::from(std::io::ErrorKind::UnexpectedEof).into());
+            }
+            let n = chunk.len().min(len - buf.len());
+            buf.extend_from_slice(&chunk[..n]);
+            self.inner.consume(n);
+        }
         Ok(buf)
     }
 
